@@ -305,3 +305,7 @@ def resolve(cnf):
                         cnf.add(("const", False))
                     changed = True
     return frozenset(cnf)
+
+
+def canon_sign_key(d):
+    return pkey(canon_sign(d))
